@@ -123,6 +123,77 @@ def analyse_locale(args):
                         regex.compile(regex.sub(r"[\(\)]", "", p), regex.U | regex.I)
                     except regex.error as e:
                         out.append(("R2", locale, k, p, "parenthesis-stripped form does not compile: %s" % e))
+        # R6: a counted phrase, instantiated, still reads as its canon after the pre-lookup rewriting
+        from ..core import rx as _rx
+        for k, pats in info.get("relative-type-regex", {}).items():
+            if "\\1" not in k or m.no_word_spacing:
+                continue
+            for pat in pats:
+                # single meaning only: a pattern listed under several keys is decided by the table order, not by this rule
+                if sum(1 for ps_ in info.get("relative-type-regex", {}).values() if pat in ps_) != 1:
+                    continue
+                ok_int = {}
+                for num in ("45", "2", "2,5"):
+                    phrase = _rx.sample(pat, num)
+                    if not phrase or num not in phrase:
+                        continue
+                    try:
+                        if not regex.fullmatch(pat, phrase, regex.U | regex.I):
+                            continue        # the pattern does not admit this spelling of the number
+                    except regex.error:
+                        continue
+                    want = k.replace("\\1", num)
+                    for normalize in (True, False):
+                        t = m.rewrite(phrase, normalize).strip()
+                        hit = None
+                        for k2, pats2 in info.get("relative-type-regex", {}).items():
+                            vals2 = [normalize_unicode(p2) for p2 in pats2] if normalize else list(pats2)
+                            body = "|".join(sorted(vals2, key=len, reverse=True)).replace(r"(\d+", r"(?P<n>\d+")
+                            try:
+                                mm = regex.fullmatch(r"(?:{})".format(body), t, regex.U | regex.I)
+                            except regex.error:
+                                mm = None
+                            if mm:
+                                hit = k2.replace("\\1", mm.groupdict().get("n") or "")
+                                break
+                        if num == "2,5":
+                            # decimal-specific: only where the integer spelling was fine and the phrase no longer matches a counted
+                            # pattern as a whole - the word-by-word path splits '2,5' into '2' and '5' (the comma is dropped)
+                            if ok_int.get(normalize) and hit is None and regex.search(r"\d,\d", t):
+                                out.append(("R6", locale, k, (phrase, normalize),
+                                            "after the rewriting the phrase reads %r, which no counted pattern matches as a whole: on the word-by-word "
+                                            "path the decimal comma is dropped and the count is read as two numbers" % t))
+                            continue
+                        if hit is not None:
+                            ok = " ".join(hit.split()) == " ".join(want.split())
+                            if num == "2":
+                                ok_int[normalize] = ok
+                            out.append(("R6", locale, k, (phrase, normalize), None if ok else
+                                        "after the rewriting the phrase reads %r and is taken for %r instead of %r" % (t, hit, want)))
+                            continue
+                        # word-by-word path: every word must be known; the translation must spell the canon
+                        d = m.dictionary(normalize)
+                        words, unknown = [], []
+                        for w in t.split():
+                            w0 = w.strip("()\"'{}[],.،:;")
+                            if regex.fullmatch(r"\d+(?:[.,]\d+)?", w0):
+                                words.append(w0)
+                            elif w0 in d or w in d:
+                                v = d.get(w0, d.get(w))
+                                if v is not None:
+                                    words.append(v)
+                            else:
+                                unknown.append(w0)
+                        if unknown:
+                            out.append(("R6", locale, k, (phrase, normalize),
+                                        "after the rewriting the phrase reads %r: no counted pattern matches it and %s is unknown to the locale" % (t, unknown)))
+                        elif " ".join(" ".join(words).split()) != " ".join(want.split()):
+                            out.append(("R6", locale, k, (phrase, normalize),
+                                        "after the rewriting the phrase reads %r, which translates word by word to %r instead of %r" % (t, " ".join(words), want)))
+                        else:
+                            if num == "2":
+                                ok_int[normalize] = True
+                            out.append(("R6", locale, k, (phrase, normalize), None))
         # R3 / R4
         meanings = m.meanings(())
         for normalize in (True, False):
@@ -141,8 +212,11 @@ def analyse_locale(args):
                                     % (t, _lost_words(m, t, d, info, normalize))))
                     elif split_rx is not None:
                         mm = split_rx.search(t)
+                        torn = next((x for x in split_rx.finditer(t) if not x.group(0) and 0 < x.start() < len(t)), None)
                         if mm and mm.group(0) and mm.span() != (0, len(t)):
                             out.append(("R4", locale, k, (p, normalize), "the counted pattern matches the part %r of %r and splits it before lookup" % (mm.group(0), t)))
+                        elif torn is not None:
+                            out.append(("R4", locale, k, (p, normalize), "the (empty) relative split expression tears %r apart at position %d" % (t, torn.start())))
                         else:
                             out.append(("R3", locale, k, (p, normalize), None))
                     else:
